@@ -148,14 +148,45 @@ func LitChain(out []*expr.Expression) bool {
 	return verifspec.Forall(0, len(out), func(i int) bool { return expr.ParserLeaf(out[i]) && out[i].Op == expr.Literal })
 }
 
+// OrOfLiterals: a plain literal, or an OR both of whose sides are (however it is nested).
+func OrOfLiterals(in *expr.Expression) bool {
+	if in == nil {
+		return false
+	}
+	if in.Op == expr.Literal {
+		return true
+	}
+	if in.Op != expr.Or {
+		return false
+	}
+	l, okl := in.Left.(*expr.Expression)
+	r, okr := in.Right.(*expr.Expression)
+	return okl && okr && OrOfLiterals(l) && OrOfLiterals(r)
+}
+
+// OrLeaves: the number of literals in an OR of literals.
+func OrLeaves(in *expr.Expression) int {
+	if in == nil || in.Op != expr.Or {
+		return 1
+	}
+	l, okl := in.Left.(*expr.Expression)
+	r, okr := in.Right.(*expr.Expression)
+	if !okl || !okr {
+		return 1
+	}
+	return OrLeaves(l) + OrLeaves(r)
+}
+
 //@ func isChainedOrLiterals
-//@   props C06 C11 C01 C03
+//@   props C06 C11 C01 C03 C15
 //@   functional
 //@   structural
-//@   fuel 2 ShapeP=2
+//@   fuel 2 ShapeP=2 OrOfLiterals=2 OrLeaves=2
 //@   requires in == nil || expr.ShapeP(in)
 //@   ensures  ok ==> in != nil && LitChain(out) && len(out) >= 1
 //@   ensures  in != nil && in.Op == expr.Literal ==> ok && len(out) == 1 && out[0] == in
+//@   ensures[exactly-the-ors-of-literals] ok == OrOfLiterals(in)
+//@   ensures[every-literal-once] ok ==> len(out) == OrLeaves(in)
 
 // EqualBuild: field:value - a value list when the value is an OR-chain of two or
 // more plain literals, an equality (or pattern match, see expr.Expr) otherwise.
